@@ -21,3 +21,9 @@ def run(ctx, rep):
     more.rule_pivot_found(mod, rep)
     from ..rules import more3
     more3.rule_cursor_reset(mod, rep)
+    from ..rules import state
+    state.rule_state(mod, rep)          # a call history must not be visible through static-duration state
+    # a factorizing call leaves no trace of the previous call in its outputs: *equed is (re)set on every DOFACT / EQUILIBRATE path
+    driver.rule_expert_table(mod, rep, "C08", partition_filter=lambda kw: kw["fact"] != "FACTORED", classes={"equed:="}, rule="X-EQUED")
+    from ..rules import more4
+    more4.rule_setup_space(mod, rep)
